@@ -139,11 +139,11 @@ def make_stub(case: Dict[str, Any]):
 FIELDS = ("zp", "th", "iso", "gap", "adia")
 
 
-def run_impl(case, kind: str, ij: Tuple[int, int]) -> Dict[str, numpy.ndarray]:
+def run_impl(case, kind: str, ij: Tuple[int, int], calc=None) -> Dict[str, numpy.ndarray]:
     """The real class for component (i, j) (0-based axes) -> the five observed arrays."""
     from cij.core.phonon_contribution.nonshear import (LongitudinalElasticModulusPhononContribution,
                                                        OffDiagonalElasticModulusPhononContribution)
-    calc = make_stub(case)
+    calc = calc if calc is not None else (_STUB_FACTORY(case) if _STUB_FACTORY else make_stub(case))
     e = numpy.array(case["e"], dtype=float)
     cls = LongitudinalElasticModulusPhononContribution if kind == "long" else OffDiagonalElasticModulusPhononContribution
     with numpy.errstate(all="ignore"):
@@ -417,6 +417,72 @@ def oracle_check(par, which=("zp", "th", "iso", "press"), comps=COMPONENTS, deri
     return bad
 
 
+
+class Steer:
+    """Stub calculators that, whenever the allocator allows, live at the address of the previous (just released) one.
+    CPython hands a freed block to the next allocation of that size; that is how a long-running process meets 'a new
+    calculator with an old id()' (and identical grid shape).  The previous stub is kept alive until immediately before
+    the next one is made."""
+    def __init__(self):
+        self.last_id, self.last_obj, self.same = None, None, 0
+
+    def __call__(self, case):
+        prev_id = self.last_id
+        self.last_obj = None
+        calc = make_stub(case)
+        hold = []
+        for _ in range(32):
+            if prev_id is None or id(calc) == prev_id: break
+            hold.append(calc)
+            calc = make_stub(case)
+        if prev_id is not None and id(calc) == prev_id:
+            self.same += 1
+        self.last_id, self.last_obj = id(calc), calc
+        del hold
+        return calc
+
+
+def history_variants(par, rng, steps: int = 3):
+    """same grid SHAPES, different temperatures and spectra (all still analytic, so the mpmath oracle applies)"""
+    import copy
+    out = []
+    for _ in range(steps):
+        q = copy.deepcopy(par)
+        f = float(rng.uniform(0.6, 1.7))
+        q["t"] = [x * f for x in par["t"]]
+        w0 = numpy.array(par["w0"], dtype=float) * rng.uniform(0.85, 1.15, size=numpy.array(par["w0"]).shape)
+        # keep frequencies inside [30, 1500] on the grid
+        v = numpy.array(par["v"], dtype=float); g0 = numpy.array(par["g0"]); c = numpy.array(par["c"])
+        for x in (numpy.log(v.min() / par["v0"]), numpy.log(v.max() / par["v0"])):
+            fr = w0 * numpy.exp(-g0 * x + c * x * x)
+            w0 = numpy.where(fr > 1500.0, w0 * 1500.0 / fr * 0.999, w0)
+            fr = w0 * numpy.exp(-g0 * x + c * x * x)
+            w0 = numpy.where(fr < 30.0, w0 * 30.0 / fr * 1.001, w0)
+        q["w0"] = w0.tolist()
+        out.append(q)
+    return out
+
+
+def oracle_history(pars, which, comps, steer=None):
+    """Evaluate calculators for pars[0], pars[1], ... one after another in this process (each released before the next,
+    address-steered) and apply the oracle to every step.  Returns (step, bad-tuple) of the first failure or None."""
+    global _STUB_FACTORY
+    steer = steer or Steer()
+    old = _STUB_FACTORY
+    _STUB_FACTORY = steer
+    try:
+        for k, par in enumerate(pars):
+            bad = oracle_check(par, which=which, comps=comps)
+            if bad:
+                return k, bad[0], steer
+    finally:
+        _STUB_FACTORY = old
+        steer.last_obj = None
+    return None, None, steer
+
+
+_STUB_FACTORY = None
+
 def failure_from(par, b, pid="C01") -> OracleFailure:
     kind, ij, f, obs, exp, err = b
     name = {"zp": "zero_point_contribution", "th": "thermal_contribution", "iso": "value_isothermal",
@@ -465,12 +531,12 @@ def shrink(par, b, which):
 
 
 # --------------------------------------------------------------------------------------------- run
-def _compare_model(res: Result, case, consts, comps, ctx: Ctx, tag: str, fields=FIELDS):
+def _compare_model(res: Result, case, consts, comps, ctx: Ctx, tag: str, fields=FIELDS, stub_factory=None):
     ops = [model_op(case, kind, ij, consts) for kind, ij in comps]
     outs = ctx.driver.ask(ops)
     n_ok = 0
     for (kind, ij), out in zip(comps, outs):
-        impl = run_impl(case, kind, ij)
+        impl = run_impl(case, kind, ij, calc=(stub_factory(case) if stub_factory else None))
         res.evaluations += 1
         if isinstance(out, str):
             res.disagreements.append(Disagreement("c01." + kind, {"tag": tag, "ij": list(ij)}, "arrays", out))
@@ -619,6 +685,28 @@ def run(ctx: Ctx, which=WHICH, pid=PID, fields=("zp", "th", "iso")) -> Result:
     import gc
     n_hist = 10 if thorough else 3
     dist["history_steps"] = 0
+    dist["history_same_address"] = 0
+    last_id = [None]
+    last_obj = [None]
+
+    def steered_stub(case):
+        """a fresh stub calculator that, whenever the allocator allows, lives at the address of the previous (just released)
+        one: CPython hands a freed block to the next allocation of that size, which is how a long-running process meets
+        'a new calculator with an old id()'.  The previous stub is kept alive until immediately before the new one is made."""
+        prev_id = last_id[0]
+        last_obj[0] = None                      # release the previous stub ...
+        calc = make_stub(case)                  # ... and allocate the next one at once
+        hold = []
+        for _ in range(32):
+            if prev_id is None or id(calc) == prev_id: break
+            hold.append(calc)
+            calc = make_stub(case)
+        if prev_id is not None and id(calc) == prev_id:
+            dist["history_same_address"] += 1
+        last_id[0] = id(calc)
+        last_obj[0] = calc
+        del hold
+        return calc
     for hidx in range(n_hist):
         base = free_case(rng, thorough)
         comps = [COMPONENTS[int(rng.integers(0, 3))], COMPONENTS[int(rng.integers(3, 7))]]
@@ -631,9 +719,27 @@ def run(ctx: Ctx, which=WHICH, pid=PID, fields=("zp", "th", "iso")) -> Result:
             fnew = numpy.clip(f * fac, 30.0, 1500.0)
             fnew[..., 0, :3] = f[..., 0, :3]
             case["freq"] = fnew
-            _compare_model(res, case, consts, comps, ctx, f"history#{hidx}.{step}", fields=fields)
+            _compare_model(res, case, consts, comps[:1] if step % 2 else comps[1:], ctx, f"history#{hidx}.{step}", fields=fields,
+                           stub_factory=steered_stub)
             dist["history_steps"] += 1
             gc.collect()
+    # analytic histories: the oracle itself is applied to every step of a same-shape sequence
+    dist["analytic_history_steps"] = 0
+    for hidx in range(6 if thorough else 2):
+        base_par = analytic_params(rng, thorough, "small")
+        pars = [base_par] + history_variants(base_par, rng, 2)
+        comps_h = [COMPONENTS[int(rng.integers(0, 3))], COMPONENTS[int(rng.integers(3, 7))]]
+        k, b, st = oracle_history(pars, which, comps_h)
+        dist["analytic_history_steps"] += len(pars)
+        dist["history_same_address"] += st.same
+        res.evaluations += len(pars)
+        if b is not None:
+            f = failure_from(pars[k], b, pid)
+            f.input = {"history": pars[:k + 1], "kind": b[0], "ij": b[1], "field": b[2]}
+            f.what = f"after {k} earlier calculation(s) of the same grid shape in this process: " + f.what
+            f.site = f"{pid}:history:{b[0]}:{b[2]}"
+            res.oracle_failures.append(f)
+            break
     res.distinct_nontrivial = len(seen)
     res.extra["tolerances"] = {"model_vs_impl_rtol_of_family_scale": RTOL_MODEL, "oracle_vs_impl_rtol_of_family_scale": RTOL_ORACLE,
                                "unit_constants_rtol": RTOL_CONST, **STATS}
@@ -661,7 +767,20 @@ def search(ctx: Ctx, res: Result, which=WHICH, pid=PID) -> List[OracleFailure]:
                 spar, sb = par, bad[0]
             out.append(failure_from(spar, sb, pid))
             break
-    res.notes.append(f"search: {n} further analytic spectra evaluated with the oracle")
+    if not out:
+        for hidx in range(20):
+            if time.time() - t0 > (300.0 if ctx.thorough() else 90.0): break
+            base_par = analytic_params(ctx.rng, ctx.thorough(), "small")
+            pars = [base_par] + history_variants(base_par, ctx.rng, 3)
+            k, b, st = oracle_history(pars, which, COMPONENTS[:1] + COMPONENTS[3:4])
+            if b is not None:
+                f = failure_from(pars[k], b, pid)
+                f.input = {"history": pars[:k + 1], "kind": b[0], "ij": b[1], "field": b[2]}
+                f.what = f"after {k} earlier calculation(s) of the same grid shape in this process: " + f.what
+                f.site = f"{pid}:history:{b[0]}:{b[2]}"
+                out.append(f)
+                break
+    res.notes.append(f"search: {n} further analytic spectra evaluated with the oracle (+ same-shape histories)")
     return out
 
 
@@ -674,6 +793,13 @@ def replay(ctx: Ctx, payload, which=WHICH, pid=PID) -> List[OracleFailure]:
         x = numpy.array(payload["x"], dtype=float); xc = x.copy()
         average_over_modes(x, numpy.ones(x.shape[0]))
         return [] if numpy.array_equal(x, xc, equal_nan=True) else [OracleFailure("average_over_modes modified its argument", payload)]
+    if "history" in payload:
+        comps = [(payload["kind"], tuple(payload["ij"]))]
+        for _ in range(5):       # address reuse is up to the allocator: a few attempts
+            k, b, st = oracle_history(payload["history"], (payload["field"],), comps)
+            if b is not None:
+                return [failure_from(payload["history"][k], b, pid)]
+        return []
     par = payload["par"]
     comps = [(payload["kind"], tuple(payload["ij"]))] if "kind" in payload else COMPONENTS
     fields = (payload["field"],) if "field" in payload else which
